@@ -146,6 +146,22 @@ def run_area(spec):
         return {"x": fh(x), "y": fh(y), "xi": ih(br.x_idxs.compute()), "yi": ih(br.y_idxs.compute())}
     out["bucket"] = guarded(m_bucket)
 
+    def m_bucket_joint():
+        """two resamplers on the SAME dask lon/lat arrays (this area and a partner area), index arrays of both evaluated in
+        ONE dask.compute; next to it the partner evaluated on its own from fresh arrays"""
+        pa = mk_area(spec["partner"])
+        ch = int(spec.get("chunks") or 4096)
+        dl, dt = da.from_array(lons.copy(), chunks=ch), da.from_array(lats.copy(), chunks=ch)
+        ra, rb = BucketResampler(area, dl, dt), BucketResampler(pa, dl, dt)
+        xa, ya, xb, yb = dask.compute(ra.x_idxs, ra.y_idxs, rb.x_idxs, rb.y_idxs)
+        ca, cb = dask.compute(ra.get_count(), rb.get_count())
+        r0 = BucketResampler(pa, da.from_array(lons.copy(), chunks=ch), da.from_array(lats.copy(), chunks=ch))
+        px, py = Proj(pa.proj_dict)(lons, lats)
+        return {"xa": ih(xa), "ya": ih(ya), "xb": ih(xb), "yb": ih(yb), "px": fh(px), "py": fh(py),
+                "xb0": ih(r0.x_idxs.compute()), "yb0": ih(r0.y_idxs.compute()), "cnt_a": int(np.sum(ca)), "cnt_b": int(np.sum(cb))}
+    if spec.get("partner") and len(lons):
+        out["bucket_joint"] = guarded(m_bucket_joint)
+
     def m_ll2cr():
         swath = geometry.SwathDefinition(lons.copy().reshape(1, -1), lats.copy().reshape(1, -1))
         t = Transformer.from_crs(swath.crs, area.crs, always_xy=True)
